@@ -1,9 +1,12 @@
 package props
 
 import (
+	"context"
 	"errors"
 	"fmt"
 	"io"
+	"io/fs"
+	"os"
 	"runtime"
 	"strings"
 	"syscall"
@@ -61,6 +64,32 @@ func eventErr(s string) error {
 		return syscall.EAGAIN // Temporary() == true: what a non-blocking descriptor returns
 	case "timeout":
 		return errTimeout{}
+	case "ENOSYS": // getrandom(2) filtered by seccomp
+		return &os.SyscallError{Syscall: "getrandom", Err: syscall.ENOSYS}
+	case "ENOENT": // no /dev/urandom in a chroot
+		return &fs.PathError{Op: "open", Path: "/dev/urandom", Err: syscall.ENOENT}
+	case "EACCES":
+		return &fs.PathError{Op: "open", Path: "/dev/urandom", Err: syscall.EACCES}
+	case "EPERM":
+		return syscall.EPERM
+	case "EINTR":
+		return syscall.EINTR
+	case "EIO":
+		return syscall.EIO
+	case "ErrNotExist":
+		return fs.ErrNotExist
+	case "ErrPermission":
+		return fs.ErrPermission
+	case "ErrNoProgress":
+		return io.ErrNoProgress
+	case "ErrClosedPipe":
+		return io.ErrClosedPipe
+	case "deadline":
+		return os.ErrDeadlineExceeded
+	case "canceled":
+		return context.Canceled
+	case "wrapped-EOF":
+		return fmt.Errorf("entropy source: %w", io.EOF)
 	}
 	harnessError("unknown error kind %q", s)
 	return nil
@@ -107,6 +136,22 @@ func (r *scriptReader) Read(p []byte) (int, error) {
 		return k, errors.New("verif: source read more than 65536 times")
 	}
 	return k, err
+}
+
+// osErrKinds: failures an operating-system source reports (beyond the five kinds of the grid).
+var osErrKinds = []string{"ENOSYS", "ENOENT", "EACCES", "EPERM", "EINTR", "EIO", "ErrNotExist", "ErrPermission", "ErrNoProgress", "ErrClosedPipe", "deadline", "canceled", "wrapped-EOF"}
+
+func longestEmptyRun(calls []readCall) int {
+	best, run := 0, 0
+	for _, c := range calls {
+		if len(c.data) == 0 && c.err == nil {
+			run++
+			best = max(best, run)
+		} else {
+			run = 0
+		}
+	}
+	return best
 }
 
 var c06Check = register("C06", "c06.reader", func(c *readerCase) error {
@@ -168,6 +213,11 @@ var c06Check = register("C06", "c06.reader", func(c *readerCase) error {
 	default:
 		if !failed {
 			// the source neither failed nor was read to the end
+			if longestEmptyRun(src.calls) > 2 && got == "" && err != nil {
+				// gave up on a source that made no progress for several reads: no sentence, an error
+				cov.Class("gave-up-on-stalling-source")
+				return nil
+			}
 			return failf(sig+" short", "NewMnemonic(%d, %s) stopped reading after %d of %d bytes without any failure [%s] and returned (%q, %v)", c.N, l, len(before), need, describe(), got, err)
 		}
 		if got != "" || err == nil {
@@ -182,7 +232,7 @@ var c06Check = register("C06", "c06.reader", func(c *readerCase) error {
 	return nil
 })
 
-const c06Rule = "C06: scripted randomness sources installed through the verif hook. Complete grid: n in {12,15,18,21,24} x failure point k in 0..4n/3-1 x kind {EOF, ErrUnexpectedEOF, custom, EAGAIN (Temporary), timeout (Timeout/Temporary)} x {error alone, error together with the last partial chunk} x fragmentation {one chunk, byte-wise, fixed cuts} x 10 languages; every fragmentation class of a successful delivery (single read, byte-wise, cuts, zero-byte reads interleaved, source offering more than asked, error together with the completing bytes); plus rapid-generated scripts, half of them run immediately after a CheckMnemonic call on an unrelated valid sentence. The source keeps delivering after a failure. Oracle: the bytes delivered up to and including the call that reports the first failure decide: >= 4n/3 => (reference encoding of the first 4n/3, nil); fewer => (\"\", non-nil). Non-trivial: a failure after >= 1 delivered byte, or >= 2 fragments; distinct by the whole script"
+const c06Rule = "C06: scripted randomness sources installed through the verif hook. Complete grid: n in {12,15,18,21,24} x failure point k in 0..4n/3-1 x kind {EOF, ErrUnexpectedEOF, custom, EAGAIN (Temporary), timeout (Timeout/Temporary)} x {error alone, error together with the last partial chunk} x fragmentation {one chunk, byte-wise, fixed cuts} x 10 languages; every fragmentation class of a successful delivery (single read, byte-wise, cuts, zero-byte reads interleaved, source offering more than asked, error together with the completing bytes); 13 operating-system failure kinds (ENOSYS from getrandom, ENOENT/EACCES opening /dev/urandom, EPERM, EINTR, EIO, fs.ErrNotExist, fs.ErrPermission, io.ErrNoProgress, io.ErrClosedPipe, deadline, context.Canceled, wrapped EOF) x 4 failure points x 2; stalling sources (runs of 3..1000 empty reads before the first / last delivery: the call may give up with an error and no sentence, or deliver the right sentence); plus rapid-generated scripts, half of them run immediately after a CheckMnemonic call on an unrelated valid sentence. The source keeps delivering after a failure. Oracle: the bytes delivered up to and including the call that reports the first failure decide: >= 4n/3 => (reference encoding of the first 4n/3, nil); fewer => (\"\", non-nil). Non-trivial: a failure after >= 1 delivered byte, or >= 2 fragments; distinct by the whole script"
 
 func c06Record(c *readerCase) {
 	cov.Eval(1)
@@ -271,6 +321,42 @@ func TestC06_Grid(t *testing.T) {
 					}
 				}
 			}
+			// operating-system failure kinds x a few failure points x {alone, with the last chunk}
+			for _, kind := range osErrKinds {
+				for _, k := range []int{0, 1, need / 2, need - 1} {
+					for _, withBytes := range []bool{false, true} {
+						item++
+						if !mine(item) {
+							continue
+						}
+						ev := fragment(k, "cuts")
+						if withBytes && len(ev) > 0 {
+							ev[len(ev)-1].Err = kind
+						} else {
+							ev = append(ev, readEvent{K: 0, Err: kind})
+						}
+						c := &readerCase{Lang: l.Name(), N: n, Data: c06Data(item), Events: ev, Shape: "grid-os-failure"}
+						c06Record(c)
+						judge(t, "c06.reader", c06Check, c)
+					}
+				}
+			}
+			// a stalling source: runs of (0, nil) reads before the first and before the last delivery
+			for _, run := range []int{3, 99, 100, 101, 150, 1000} {
+				for _, at := range []int{0, need - 5} {
+					item++
+					if !mine(item) {
+						continue
+					}
+					ev := fragment(at, "cuts")
+					for i := 0; i < run; i++ {
+						ev = append(ev, readEvent{K: 0})
+					}
+					c := &readerCase{Lang: l.Name(), N: n, Data: c06Data(item), Events: ev, Shape: "grid-stall"}
+					c06Record(c)
+					judge(t, "c06.reader", c06Check, c)
+				}
+			}
 			// successful deliveries in every fragmentation class
 			for _, style := range []string{"one", "bytewise", "cuts", "zero-reads", "oversized", "error-with-last", "exact-then-error", "gc-between-fragments"} {
 				item++
@@ -322,9 +408,18 @@ func c06RandomProp(rt *rapid.T) {
 	ev := rapid.SliceOfN(rapid.Custom(func(t *rapid.T) readEvent {
 		return readEvent{
 			K:   rapid.OneOf(rapid.IntRange(0, 3), rapid.IntRange(0, 40), rapid.Just(1)).Draw(t, "k"),
-			Err: rapid.SampledFrom([]string{"", "", "", "", "", "", "", "", "", "EOF", "UnexpectedEOF", "custom", "EAGAIN", "timeout"}).Draw(t, "err"),
+			Err: rapid.SampledFrom(append([]string{"", "", "", "", "", "", "", "", "", "", "", "", "", "", "", "", "", "", "", "", "", "", "", "", "", "", "", "EOF", "UnexpectedEOF", "custom", "EAGAIN", "timeout"}, osErrKinds...)).Draw(t, "err"),
 		}
 	}), 0, 40).Draw(rt, "events")
+	// one case in eight: a stalling source, a long run of (0, nil) reads before some delivery.
+	// There an implementation may give up with an error (judged fail-closed) or keep reading; it
+	// may not return a sentence built from fewer bytes than 4n/3.
+	stallAt, stallLen := -1, 0
+	if rapid.IntRange(0, 7).Draw(rt, "stalling") == 0 {
+		stallAt = rapid.IntRange(0, len(ev)).Draw(rt, "stall-at")
+		stallLen = rapid.SampledFrom([]int{3, 16, 99, 100, 101, 128, 150, 256, 1000}).Draw(rt, "stall-len")
+		cov.Class("stalling-source")
+	}
 	// at most two empty reads in a row: (0, nil) is legal but "discouraged" by io.Reader, and an
 	// implementation that gives up on a source making no progress does not break the property
 	zeros := 0
@@ -340,6 +435,14 @@ func c06RandomProp(rt *rapid.T) {
 		kept = append(kept, x)
 	}
 	ev = kept
+	if stallAt >= 0 {
+		stallAt = min(stallAt, len(ev))
+		withStall := append([]readEvent(nil), ev[:stallAt]...)
+		for i := 0; i < stallLen; i++ {
+			withStall = append(withStall, readEvent{K: 0})
+		}
+		ev = append(withStall, ev[stallAt:]...)
+	}
 	c := &readerCase{Lang: l.Name(), N: n, Data: data, Events: ev, Shape: "random/" + e.Shape}
 	if rapid.Bool().Draw(rt, "primed") {
 		pe := gen.Entropy().Draw(rt, "prime-entropy")
